@@ -91,6 +91,80 @@ def _rule_d2(text, log):
     return text
 
 
+def _rule_r18(text, log):
+    """error-message payloads: `"literal".into()`, `"literal".to_string()` and `format!(..)` -> err_string()
+    (the text of a message is not modelled; the unit supplies `fn err_string() -> String`)."""
+    n = 0
+    m = rs.mask(text)
+    ranges = []
+    for mm in re.finditer(r'\bformat!\s*\(', m):
+        close = rs.match_brace(m, mm.end() - 1)
+        ranges.append((mm.start(), close + 1))
+    # masked string literals keep their quotes; find "..."<.into()|.to_string()>
+    for mm in re.finditer(r'"[^"]*"\s*\.\s*(into|to_string)\(\)', m):
+        if not any(a <= mm.start() < b for a, b in ranges):
+            ranges.append((mm.start(), mm.end()))
+    ranges.sort()
+    out, last = [], 0
+    for a, b in ranges:
+        out.append(text[last:a])
+        out.append('err_string()')
+        last = b
+        n += 1
+    out.append(text[last:])
+    if n:
+        log.append(('R18', n))
+    return ''.join(out)
+
+
+def _rule_r20(text, log):
+    """`let mut IT = E.windows(2); while let Some([A, B]) = IT.next() {`  ->  index loop over adjacent pairs:
+    `let mut __w: usize = 0; while __w + 1 < E.len() { let A = &E[__w]; let B = &E[__w + 1]; __w += 1;`
+    (the increment is at the START of the body so that `continue` keeps its meaning)."""
+    rx = re.compile(r'let\s+mut\s+([a-z_][a-z0-9_]*)\s*=\s*([a-z_][a-z0-9_.]*)\.windows\(2\);\s*'
+                    r'while\s+let\s+Some\(\[\s*([a-z_][a-z0-9_]*)\s*,\s*([a-z_][a-z0-9_]*)\s*\]\)\s*=\s*\1\.next\(\)\s*\{')
+    def rep(mm):
+        E, A, B = mm.group(2), mm.group(3), mm.group(4)
+        return ('let mut __w: usize = 0;\n        while __w + 1 < %s.len() {\n            let %s = &%s[__w]; let %s = &%s[__w + 1]; __w += 1;' % (E, A, E, B, E))
+    text, n = rx.subn(rep, text)
+    if n:
+        log.append(('R20', n))
+    return text
+
+
+def _rule_r21(text, log):
+    """last element of a vector of Copy items: `X.last().expect(..).clone()`, `X.last().unwrap().clone()`,
+    `*X.last().unwrap()`  ->  `X[X.len() - 1]` (the index obligation replaces the panic of expect/unwrap)."""
+    n = 0
+    m = rs.mask(text)
+    rx = re.compile(r'([a-z_][a-z0-9_]*)\s*\.last\(\)\s*\.(expect|unwrap)\(')
+    pieces, last = [], 0
+    for mm in rx.finditer(m):
+        close = rs.match_brace(m, mm.end() - 1)
+        tail = re.match(r'\s*\.clone\(\)', m[close + 1:])
+        start = mm.start()
+        end = close + 1
+        if tail:
+            end += tail.end()
+        else:
+            k = start - 1
+            while k >= 0 and m[k] in ' \t\n':
+                k -= 1
+            if k >= 0 and m[k] == '*':
+                start = k
+            else:
+                continue
+        X = mm.group(1)
+        pieces.append(text[last:start])
+        pieces.append('%s[%s.len() - 1]' % (X, X))
+        last = end
+        n += 1
+    pieces.append(text[last:])
+    if n:
+        log.append(('R21', n))
+    return ''.join(pieces)
+
+
 _UNARY_PREV = set('(,=[{;<>+-*/%!&|:?')
 
 
@@ -185,6 +259,12 @@ def _rule_r2_r3(text, log):
         n3 += 1
         return '%sfor %s in 0..%s.len() { let %s = &%s[%s];' % (mm.group(1), mm.group(2), mm.group(4), mm.group(3), mm.group(4), mm.group(2))
     text = re.sub(r"((?:'[a-z_]+\s*:\s*)?)for\s*\(\s*([a-z_][a-z0-9_]*)\s*,\s*([a-z_][a-z0-9_]*)\s*\)\s+in\s+([A-Za-z_][A-Za-z0-9_.]*?)\.iter\(\)\.enumerate\(\)\s*\{", r3, text)
+
+    def r3v(mm):
+        nonlocal n3
+        n3 += 1
+        return '%sfor %s in 0..%s.len() { let %s = %s[%s];' % (mm.group(1), mm.group(2), mm.group(4), mm.group(3), mm.group(4), mm.group(2))
+    text = re.sub(r"((?:'[a-z_]+\s*:\s*)?)for\s*\(\s*([a-z_][a-z0-9_]*)\s*,\s*([a-z_][a-z0-9_]*)\s*\)\s+in\s+([A-Za-z_][A-Za-z0-9_.]*?)\.into_iter\(\)\.enumerate\(\)\s*\{", r3v, text)
 
     def r2(mm):
         nonlocal n2
@@ -384,6 +464,54 @@ def _rule_r6(text, log):
                '        __r6_out })') % (E, pat, E, body)
         out = out[:mm.start()] + rep + out[close + 1 + tail.end():]
         n += 1
+    # (i) E.par_iter().any(|x| BODY)  (rayon: some element satisfies BODY) -> loop with early exit
+    while True:
+        m = rs.mask(out)
+        mm = re.search(r'([a-z_][a-z0-9_]*)\s*\.par_iter\(\)\s*\.any\(', m)
+        if not mm:
+            break
+        op = mm.end() - 1
+        close = rs.match_brace(m, op)
+        inner = out[op + 1:close]
+        cm = re.match(r'\s*\|\s*([a-z_][a-z0-9_]*)\s*\|\s*', inner)
+        if not cm:
+            raise Unsupported('R6i: closure not recognised')
+        x, body = cm.group(1), inner[cm.end():].strip()
+        E = mm.group(1)
+        rep = ('({ let mut __r6_any = false; let mut __r6_i: usize = 0;\n'
+               '            while __r6_i < %s.len() && !__r6_any {\n'
+               '                let %s = &%s[__r6_i];\n'
+               '                let __r6_b: bool = %s;\n'
+               '                if __r6_b { __r6_any = true; }\n'
+               '                __r6_i += 1;\n'
+               '            }\n'
+               '            __r6_any })') % (E, x, E, body)
+        out = out[:mm.start()] + rep + out[close + 1:]
+        n += 1
+    # (j) E.retain(|x| BODY);  -> rebuild E from the elements for which BODY holds, in order (T: Copy)
+    while True:
+        m = rs.mask(out)
+        mm = re.search(r'([a-z_][a-z0-9_]*)\s*\.retain\(', m)
+        if not mm:
+            break
+        op = mm.end() - 1
+        close = rs.match_brace(m, op)
+        inner = out[op + 1:close]
+        cm = re.match(r'\s*\|\s*([a-z_][a-z0-9_]*)\s*\|\s*', inner)
+        if not cm:
+            raise Unsupported('R6j: closure not recognised')
+        x, body = cm.group(1), inner[cm.end():].strip()
+        E = mm.group(1)
+        rep = ('({ let mut __r6_keep = vec_empty_like(&%s); let mut __r6_i: usize = 0;\n'
+               '            while __r6_i < %s.len() {\n'
+               '                let %s = &%s[__r6_i];\n'
+               '                let __r6_b: bool = %s;\n'
+               '                if __r6_b { __r6_keep.push(%s[__r6_i]); }\n'
+               '                __r6_i += 1;\n'
+               '            }\n'
+               '            %s = __r6_keep; })') % (E, E, x, E, body, E, E)
+        out = out[:mm.start()] + rep + out[close + 1:]
+        n += 1
     # (g) EXPR.iter().map(|&x| BODY).collect()  where EXPR is the (possibly multi-line) receiver chain of the statement
     while True:
         m = rs.mask(out)
@@ -478,6 +606,21 @@ def apply_rewrites(text, log, rules, keep_eq=False):
     text = _strip_docs_attrs(text, log, keep_eq)
     if 'D2' in rules:
         text = _rule_d2(text, log)
+    if 'R18' in rules:
+        text = _rule_r18(text, log)
+    if 'R20' in rules:
+        text = _rule_r20(text, log)
+    if 'R21' in rules:
+        text = _rule_r21(text, log)
+    if 'R22' in rules:
+        # A.into_iter().chain(B.into_iter()).collect()  ->  vec_concat(A, B)   (std contract: A's elements then B's)
+        text, n22 = re.subn(r'\b([a-z_][a-z0-9_]*)\s*\.into_iter\(\)\s*\.chain\(\s*([a-z_][a-z0-9_]*)\.into_iter\(\)\s*\)\s*\.collect\(\)', r'vec_concat(\1, \2)', text)
+        if n22:
+            log.append(('R22', n22))
+        # vec![X.clone()] / vec![X]  ->  vec_one(..)
+        text, n22b = re.subn(r'\bvec!\[\s*([a-z_][a-z0-9_]*)\.clone\(\)\s*\]', r'vec_one(*\1)', text)
+        if n22b:
+            log.append(('R22b', n22b))
     if 'R2' in rules:
         text = _rule_r2_r3(text, log)
     if 'R10' in rules:
@@ -534,6 +677,15 @@ def apply_rewrites(text, log, rules, keep_eq=False):
     if 'R8' in rules:
         text = _rule_r8(text, log)
     for r in rules:
+        if r.startswith('SW:'):
+            # like S, but whitespace-insensitive: the pattern may span lines in the source
+            old, new = r[3:].split('=>')
+            toks = [re.escape(t) for t in old.split()]
+            rx = re.compile(r'\s*'.join(toks))
+            text, cnt = rx.subn(lambda m_: new.replace('\\n', '\n'), text)
+            if cnt:
+                log.append(('SW:%s=>%s' % (old, new), cnt))
+            continue
         if r.startswith('S:'):
             # unit-declared token substitution  S:old=>new  (listed in evidence; used only for
             # dependency paths such as `nalgebra::Vector3` -> `Vector3`)
@@ -606,6 +758,62 @@ def float_literals(text):
 
 
 # --------------------------------------------------------------------------- template parsing
+def bitflags_model(src, name, log):
+    """kind=bitflags: the `bitflags!` invocation declaring `struct NAME: uN` is turned into a plain
+    struct {b: uN} whose associated constants carry the values EVALUATED from the constant expressions
+    in the source, with the bitflags-2 operator semantics (| & retain bits, ! truncates to known bits,
+    contains = (a & b == b)) given through the *SpecImpl traits.  The macro itself is not verified."""
+    m = rs.mask(src)
+    for mm in re.finditer(r'\bbitflags!\s*\{', m):
+        close = rs.match_brace(m, mm.end() - 1)
+        sm = re.search(r'pub\s+struct\s+%s\s*:\s*(u\d+)\s*\{' % re.escape(name), m[mm.end():close])
+        if not sm:
+            continue
+        ty = sm.group(1)
+        so = mm.end() + sm.end() - 1
+        sc = rs.match_brace(m, so)
+        body = m[so + 1:sc]
+        raw = src[mm.start():close + 1]
+        vals = {}
+        order = []
+        for cm in re.finditer(r'\bconst\s+([A-Z_][A-Z0-9_]*)\s*=\s*([^;]+);', body):
+            cname, expr = cm.group(1), cm.group(2)
+            e = re.sub(r'Self::([A-Z_][A-Z0-9_]*)\.bits\(\)', lambda k: str(vals[k.group(1)]) if k.group(1) in vals else '__UNKNOWN__', expr)
+            if not re.fullmatch(r'[0-9a-fA-Fxob_\s|&<>()+~^-]+', e):
+                raise Unsupported('bitflags %s::%s: constant expression not evaluable: %s' % (name, cname, expr.strip()))
+            v = eval(e, {'__builtins__': {}}, {})
+            width = int(ty[1:])
+            if not (0 <= v < (1 << width)):
+                raise Unsupported('bitflags %s::%s: value out of range' % (name, cname))
+            vals[cname] = v
+            order.append(cname)
+        if not order:
+            raise Unsupported('bitflags %s: no constants found' % name)
+        allbits = 0
+        for c in order:
+            allbits |= vals[c]
+        N = name
+        out = []
+        out.append('#[derive(Clone, Copy)]\npub struct %s { pub b: %s }' % (N, ty))
+        out.append('impl %s {' % N)
+        for c in order:
+            out.append('    pub const %s: %s = %s { b: %d%s };' % (c, N, N, vals[c], ty))
+        out.append('    pub open spec fn all_bits() -> %s { %d%s }' % (ty, allbits, ty))
+        out.append('    pub fn bits(&self) -> (r: %s) ensures r == self.b { self.b }' % ty)
+        out.append('    pub fn contains(&self, o: %s) -> (r: bool) ensures r == (self.b & o.b == o.b) { self.b & o.b == o.b }' % N)
+        out.append('    pub fn intersects(&self, o: %s) -> (r: bool) ensures r == (self.b & o.b != 0) { self.b & o.b != 0 }' % N)
+        out.append('    pub fn is_empty(&self) -> (r: bool) ensures r == (self.b == 0) { self.b == 0 }')
+        out.append('}')
+        for tr, op, sym in (('BitOr', 'bitor', '|'), ('BitAnd', 'bitand', '&')):
+            out.append('impl core::ops::%s for %s { type Output = %s; fn %s(self, o: %s) -> (r: %s) { %s { b: self.b %s o.b } } }' % (tr, N, N, op, N, N, N, sym))
+            out.append('impl vstd::std_specs::ops::%sSpecImpl for %s {\n    open spec fn obeys_%s_spec() -> bool { true }\n    open spec fn %s_req(self, o: %s) -> bool { true }\n    open spec fn %s_spec(self, o: %s) -> %s { %s { b: self.b %s o.b } }\n}' % (tr, N, op, op, N, op, N, N, N, sym))
+        out.append('impl core::ops::Not for %s { type Output = %s; fn not(self) -> (r: %s) { %s { b: !self.b & %d%s } } }' % (N, N, N, N, allbits, ty))
+        out.append('impl vstd::std_specs::ops::NotSpecImpl for %s {\n    open spec fn obeys_not_spec() -> bool { true }\n    open spec fn not_req(self) -> bool { true }\n    open spec fn not_spec(self) -> %s { %s { b: !self.b & %d%s } }\n}' % (N, N, N, allbits, ty))
+        log.append(('BF', len(order)))
+        return '\n'.join(out), raw, (src.count('\n', 0, mm.start()) + 1, src.count('\n', 0, close) + 1)
+    raise Unsupported('bitflags struct %s not found' % name)
+
+
 class Region:
     def __init__(self, kind, name, props, first, last):
         self.kind, self.name, self.props, self.first, self.last = kind, name, props, first, last
@@ -913,10 +1121,17 @@ def generate(unit_path, repo=REPO):
                 if fpath not in src_cache:
                     src_cache[fpath] = open(fpath).read()
                 src = src_cache[fpath]
-                it, parents = rs.find_item(src, ipath)
-                raw = src[it['start']:it['end']]
                 log = []
                 kind = opts.get('kind') or 'verbatim'
+                if kind == 'bitflags':
+                    text, raw, lns = bitflags_model(src, ipath, log)
+                    items.append(dict(file=file, path='bitflags ' + ipath, sha256=sha(raw), rewrites=[dict(rule=r, count=c) for r, c in log], lost=[],
+                                      lines=list(lns), props=props, kind='bitflags'))
+                    emit(text, 'item', ipath, props)
+                    i += 1
+                    continue
+                it, parents = rs.find_item(src, ipath)
+                raw = src[it['start']:it['end']]
                 if kind == 'r1':
                     txt = _strip_docs_attrs(raw, log)
                     gen, cname, cfact = const_r1(txt)
